@@ -145,7 +145,8 @@ Proof.
   assert (K : nlen b - nlen r1 = nlen (enc (c_compact MX) len)) by (rewrite E at 1; rewrite nlen_app; lia).
   assert (S : skipn (N.to_nat (nlen b - nlen r1)) b = r1).
   { rewrite K. unfold nlen. rewrite Nat2N.id. rewrite E at 1. rewrite skipn_app, skipn_all, Nat.sub_diag. reflexivity. }
-  cbv zeta. rewrite S. destruct (len <=? nlen r1) eqn:L; [|reflexivity].
+  cbv zeta. rewrite S, takeN_take. destruct (len <=? nlen r1) eqn:L.
+  2:{ apply N.leb_gt in L. rewrite take_short by (unfold nlen in L; lia). reflexivity. }
   apply N.leb_le in L. rewrite take_firstn_skipn by (unfold nlen in L; lia). cbn [consumed_view]. f_equal. f_equal.
   assert (nlen (skipn (N.to_nat len) r1) = nlen r1 - len).
   { unfold nlen in *. rewrite skipn_length. lia. }
